@@ -136,6 +136,20 @@ inline std::vector<double> thetas_full()
     3, PI - 1e-3, PI - 1e-5, PI - 1e-7, PI - 1e-9, std::nextafter(PI, 0.), PI, std::nextafter(PI, 4.), PI + 1e-9, PI + 1e-5, PI + 1e-3, 4,
     2 * PI - 1e-3, 2 * PI, 2 * PI + 1e-3, 10, 50};
 }
+/// thetas_full plus a logarithmic grid (quick: 4 per decade, thorough: 12 per decade, 1e-8 .. 10) and the neighbourhoods of
+/// k*pi, k = 2..5: for unary spaces, so that a defect confined to a thin band of rotation norms between two alphabet values
+/// (a wrong series/closed-form switch, a wrong branch condition for large angles) still has an input inside the band
+inline std::vector<double> thetas_dense()
+{
+  std::vector<double> t = thetas_full();
+  const int per = mc::thorough() ? 12 : 4;
+  for (int k = -8 * per; k <= per; ++k) t.push_back(std::pow(10.0, double(k) / per) * 1.0371);
+  for (int k = 2; k <= 5; ++k)
+    for (double d : {-1e-3, -1e-7, 0.0, 1e-7, 1e-3}) t.push_back(k * PI + d);
+  std::sort(t.begin(), t.end());
+  t.erase(std::unique(t.begin(), t.end()), t.end());
+  return t;
+}
 /// one representative per stratum
 inline std::vector<double> thetas_reduced()
 {
@@ -177,6 +191,13 @@ struct AlphaOpts
       o.dirs.push_back(m[size_t(2 * s + 1)]);
     }
     o.tmags = {0, 1e-3, 1, 1e3};
+    return o;
+  }
+  /// full() with the dense rotation-norm grid: for unary spaces
+  static AlphaOpts dense()
+  {
+    AlphaOpts o = full();
+    o.thetas    = thetas_dense();
     return o;
   }
   /// every stratum once: for pair / triple products
